@@ -152,7 +152,11 @@ RULE = ("corpus + seeded structured cases over the dataset's Position/Position4D
         "a deterministic family of bare STRING attributes as conditions (alone, under and_/or_, across 0-1 hops) over name sets on "
         "which Python's truthiness and SQLite's numeric cast differ and name sets on which they coincide; a deterministic family of "
         "variable ==/!= object (either operand order, alone and under and_/or_, classes with and without a name, the object being / "
-        "not being the first element of the domain); "
+        "not being the first element of the domain); a deterministic family of SCALAR columns of two different variables "
+        "compared (==, !=, <=; 0-1 hops; either order; alone, under and_ with the other variable referenced before/after, under "
+        "or_) over stores with several None in the Optional column on both sides; a deterministic family of membership in LONG "
+        "literal collections (998-3000 values around 999/1000 and their multiples, with/without None) whose persisted values "
+        "stand at the head, around each boundary, in the tail and at the end (the random stream draws such collections too); "
         "3-12 persisted objects incl. None in optional columns; both worlds run for real; non-trivial = the expected "
         "answer is neither empty nor every candidate (or a definite rejection); distinct by case text")
 
@@ -563,9 +567,18 @@ class _Gen:
         if r < 0.92 or is_s:
             k = rng.choice([0, 1, 1, 2, 2, 3])
             vs = [lit() for _ in range(k)]
+            if not is_s and rng.random() < 0.04:
+                # a LONG literal collection (sizes around 999/1000 and their multiples); a persisted value stands at the
+                # head, around a multiple of 999/1000, or in the tail
+                n = rng.choice(LONG_IN_SIZES[:9]) + rng.choice([0, 0, 0, -3, 5, 40])
+                present = [v[1] for v in (self.db.value(i, path) for i in self.db.of(cls)) if v[0] == "num"]
+                pv = rng.choice(present) if present else 1
+                lo = max(1, pv - rng.choice([0, 0, 1, 2]))
+                vs = _long_values(n, pv, rng.choice([0, 1, 998, 999, 1000, n // 2, -2, -1, -1, -1]), lo)
+                self.tags.add("in-long")
             if not is_s and ((nullable and rng.random() < 0.5) or rng.random() < 0.05):
                 vs.insert(rng.randint(0, len(vs)), None)
-            self.tags.add("in-%d" % len(vs))
+            self.tags.add("in-%d" % len(vs) if len(vs) <= 4 else "in-long")
             style = rng.choice(["in", "contains", "in-tuple", "contains-tuple"])
             if style.endswith("tuple"):
                 self.tags.add("tuple-literal")
@@ -1107,9 +1120,154 @@ def _var_obj_family(tier: str) -> List[Case]:
     return cases
 
 
+def _scalar_pair_family(tier: str) -> List[Case]:
+    """comparisons of SCALAR columns of two DIFFERENT variables (`o.w == other.w`, `pose.orientation.w != o.w`,
+    `b.size == c.parent.size`, `b.name == other.name`), 0-1 hops on either side, either operand order, ==/!= (and an
+    ordering where no operand is NULL), alone, under and_ (the other variable referenced before / after the comparison)
+    and under or_; over stores in which SEVERAL rows of both variables hold None in the Optional column, so that in
+    memory `None == None` pairs exist (SQL: NULL = NULL is unknown; the translation has to be NULL-safe wherever the
+    comparison ends up - WHERE or a JOIN's ON clause).  and_-only conditions are observed WITH multiplicity (one
+    solution / row per satisfying pair), half of them with the(...)"""
+    cases: List[Case] = []
+    k = 0
+
+    def add(fam, sch, db, sel, oth, cond, and_only, kindtag):
+        nonlocal k
+        k += 1
+        the = k % 4 == 0
+        mult = and_only and k % 2 == 0
+        tags = ("scalar-pair-family", fam, "root-" + sel, "two-var-" + ("same-class" if sel == oth else "other-class"),
+                "cmp-col-col", "other-var-chain", kindtag) + (("the",) if the else ()) + (("multiplicity",) if mult else ())
+        cases.append(Case(_case_line(the, "entity", [sel, oth], cond, sch, db, mult), tags, "exhaustive"))
+
+    def shapes(fam, sch, db, sel, oth, pa, pb, nullable, side0, side1):
+        """side0 / side1: an extra atom over variable 0 / 1 (for the and_/or_ contexts)"""
+        a, b = _ch(0, pa), _ch(1, pb)
+        ops = ["eq", "ne"] + ([] if nullable else ["le"])
+        for oi, op in enumerate(ops):
+            for (l, r) in ((a, b), (b, a)):
+                if tier == "quick" and op != "eq" and (l, r) == (b, a) and not nullable:
+                    continue
+                c = "(cmp %s %s %s)" % (op, l, r)
+                tagn = "null-pair" if nullable else "nonnull-pair"
+                add(fam, sch, db, sel, oth, c, True, tagn)
+                if op == "le" or (tier == "quick" and (l, r) == (b, a) and op == "ne"):
+                    continue
+                add(fam, sch, db, sel, oth, "(and %s %s)" % (c, side0), True, tagn)
+                add(fam, sch, db, sel, oth, "(and %s %s)" % (side1, c), True, tagn)   # other variable reached before
+                add(fam, sch, db, sel, oth, "(or %s %s)" % (c, side0), False, tagn)
+                if tier != "quick":
+                    add(fam, sch, db, sel, oth, "(and %s %s)" % (c, side1), True, tagn)
+                    add(fam, sch, db, sel, oth, "(or %s %s)" % (side1, c), False, tagn)
+                    add(fam, sch, db, sel, oth, "(and %s (or %s %s))" % (side0, c, side1), False, tagn)
+
+    # ---- geom: Orientation.w is Optional[float]
+    sch = Sch("geom")
+    for variant, ws in enumerate([[None, None, 1, 1, 2], [None, 3], [None, None, None], [2, 1, 2]]):
+        if tier == "quick" and variant == 3:
+            continue
+        db = _DB(sch)
+        os_ = [db.add("Orientation", {"x": 1 + i, "y": 1 + i % 2, "z": 1 + i % 3, "w": w}, {}) for i, w in enumerate(ws)]
+        p4 = [db.add("Position4D", {"x": 1 + i, "y": 2, "z": 1, "w": w}, {}) for i, w in enumerate([1, 3])]
+        db.add("Position5D", {"x": 3, "y": 1, "z": 1, "w": 2, "v": 1}, {})
+        ps = [db.add("Position", {"x": 1 + i, "y": 1, "z": 2}, {}) for i in range(2)]
+        for i, o in enumerate(os_):
+            db.add("Pose", {}, {"position": (ps + p4)[i % 4], "orientation": o})
+        null = None in ws
+        x0, x1 = "(cmp ge %s (lit 1))" % _ch(0, ("x",)), "(cmp le %s (lit 2))" % _ch(1, ("x",))
+        shapes("geom", sch, db, "Orientation", "Orientation", ("w",), ("w",), null, x0, x1)
+        if variant == 0 or tier != "quick":
+            shapes("geom", sch, db, "Orientation", "Position4D", ("w",), ("w",), null, x0, x1)
+            shapes("geom", sch, db, "Position4D", "Orientation", ("w",), ("w",), null, x0, x1)
+            shapes("geom", sch, db, "Pose", "Orientation", ("orientation", "w"), ("w",), null,
+                   "(cmp ge %s (lit 1))" % _ch(0, ("position", "x")), x1)
+            shapes("geom", sch, db, "Orientation", "Pose", ("w",), ("orientation", "w"), null, x0,
+                   "(cmp le %s (lit 2))" % _ch(1, ("position", "x")))
+        if variant == 0:
+            shapes("geom", sch, db, "Position", "Position", ("x",), ("y",), False, "(cmp ge %s (lit 1))" % _ch(0, ("z",)),
+                   "(cmp le %s (lit 2))" % _ch(1, ("x",)))
+    # ---- world: int and string columns (never NULL), 0-1 hops
+    sch = Sch("world")
+    db = _DB(sch)
+    w1 = db.add("World", {"id": 1}, {})
+    w2 = db.add("World", {"id": 2}, {})
+    bs = [db.add(c, {"size": s, "name": _code(t)}, {"world": w1 if i % 2 else w2})
+          for i, (c, s, t) in enumerate([("Body", 1, "a"), ("Handle", 2, "ab"), ("Container", 1, "b"), ("Body", 3, "bc")])]
+    db.add("FixedConnection", {}, {"world": w1, "parent": bs[0], "child": bs[1]})
+    db.add("PrismaticConnection", {}, {"world": w2, "parent": bs[3], "child": bs[2]})
+    s0, s1 = "(cmp ge %s (lit 1))" % _ch(0, ("size",)), "(cmp le %s (lit 2))" % _ch(1, ("size",))
+    shapes("world", sch, db, "Body", "Body", ("size",), ("size",), False, s0, s1)
+    shapes("world", sch, db, "Body", "Handle", ("name",), ("name",), False, s0, s1)
+    shapes("world", sch, db, "Body", "Connection", ("size",), ("parent", "size"), False, s0,
+           "(cmp le %s (lit 2))" % _ch(1, ("child", "size")))
+    shapes("world", sch, db, "Body", "World", ("size",), ("id",), False, s0, "(cmp le %s (lit 2))" % _ch(1, ("id",)))
+    return cases
+
+
+# literal-collection sizes around the boundaries at which a backend (or a translator working around one) has to split or
+# limit an IN list: SQLite < 3.32 999 bound variables, Oracle 1000 expressions, and their multiples
+LONG_IN_SIZES = [998, 999, 1000, 1001, 1997, 1998, 1999, 2000, 2001, 2997, 3000]
+
+
+def _long_values(n: int, present: int, at: int, lo: int = 1) -> List[int]:
+    """n distinct non-zero values lo..lo+n-1, rotated so that `present` stands at index `at` (negative: from the end)"""
+    vs = list(range(lo, lo + n))
+    i = vs.index(present)
+    at = at % n
+    r = (i - at) % n
+    return vs[r:] + vs[:r]
+
+
+def _long_in_family(tier: str) -> List[Case]:
+    """membership in LONG literal collections (sizes around 999/1000 and their multiples): int and float columns, 0-1
+    hops, lists and tuples, both spellings, with and without None among the values; the persisted values stand at the
+    head, just before / after every multiple of 999 and 1000, in the tail and at the very end of the collection, and one is
+    absent from it"""
+    sizes = LONG_IN_SIZES if tier != "quick" else [999, 1000, 1001, 1998, 2000, 2001]
+    styles = ["in", "contains", "in-tuple", "contains-tuple"]
+    cases: List[Case] = []
+    k = 0
+    for n in sizes:
+        spots = sorted({0, 1, 997, 998, 999, 1000, 1001, n // 2, n - 2, n - 1} & set(range(n)))
+        # rotate 1..n by 7: value v stands at index (v - 8) mod n; the rows hold the values standing at `spots`
+        vs = _long_values(n, 8, 0)
+        row_vals = [vs[i] for i in spots][:9] + [n + 5]
+        # world: Body.size (int), directly and through Connection.parent
+        sch = Sch("world")
+        db = _DB(sch)
+        w = db.add("World", {"id": 1}, {})
+        bodies = [db.add(["Body", "Handle", "Container"][i % 3], {"size": v, "name": 1 + i}, {"world": w})
+                  for i, v in enumerate(row_vals)]
+        for i in (0, len(bodies) // 2, len(bodies) - 2, len(bodies) - 1):
+            db.add("FixedConnection", {}, {"world": w, "parent": bodies[i], "child": bodies[0]})
+        # geom: Orientation.w (Optional[float]) with None in rows and (sometimes) among the values
+        gsch = Sch("geom")
+        gdb = _DB(gsch)
+        for i, v in enumerate(row_vals[:3] + row_vals[-4:] + [None, None]):
+            gdb.add("Orientation", {"x": 1 + i, "y": 1, "z": 2, "w": v}, {})
+        targets = [("world", sch, db, "Body", ("size",), False), ("world", sch, db, "Connection", ("parent", "size"), False),
+                   ("geom", gsch, gdb, "Orientation", ("w",), False), ("geom", gsch, gdb, "Orientation", ("w",), True)]
+        for ti, (fam, s_, d_, root, path, with_none) in enumerate(targets):
+            for si, style in enumerate(styles):
+                if tier == "quick" and (ti + si + k) % 2:
+                    continue
+                k += 1
+                vals = list(vs)
+                if with_none:
+                    vals.insert((k * 331) % (n + 1), None)
+                cond = "(in %s (vals%s) %s)" % (_ch(0, path), "".join(" " + ("N" if v is None else str(v)) for v in vals), style)
+                if k % 5 == 0:
+                    # (an ordering comparison only on a column that never holds None)
+                    cond = "(and %s (cmp ge %s (lit 1)))" % (cond, _ch(0, path[:-1] + (("x",) if fam == "geom" else ("size",))))
+                tags = ("long-in-family", fam, "root-" + root, "in-long", "in-%d" % len(vals), "hops%d" % (len(path) - 1)) \
+                    + (("none-in-values",) if with_none else ())
+                cases.append(Case(_case_line(False, "entity", [root], cond, s_, d_, k % 2 == 0), tags, "exhaustive"))
+    return cases
+
+
 def generate(rng, tier, n):
     cases = (_join_family(tier) + _string_family(tier) + _substring_family(tier) + _rel_path_family(tier)
-             + _str_truthy_family(tier) + _var_obj_family(tier))
+             + _str_truthy_family(tier) + _var_obj_family(tier) + _scalar_pair_family(tier) + _long_in_family(tier))
     for i in range(n):
         r = rng.random()
         stream = "single" if r < 0.56 else ("two" if r < 0.76 else ("joinmult" if r < 0.86 else "unsupported"))
@@ -1208,6 +1366,25 @@ def shrink(case: Case):
             ndb.append(no)
         if ndb:
             yield rebuild(new_db=ndb)
+    # shorten a long literal collection: drop a block of values at its head or at its end
+    if cond != "none":
+        def shorter(e):
+            if not isinstance(e, list) or not e:
+                return
+            if e[0] == "in" and isinstance(e[2], list) and len(e[2]) - 1 > 4:
+                vs = e[2][1:]
+                n = len(vs)
+                for d in dict.fromkeys([n // 2, n // 4, 100, 10, 1]):
+                    if 0 < d < n:
+                        yield e[:2] + [["vals"] + vs[d:]] + e[3:]
+                        yield e[:2] + [["vals"] + vs[:n - d]] + e[3:]
+            elif e[0] in ("and", "or"):
+                for x in shorter(e[1]):
+                    yield [e[0], x, e[2]]
+                for x in shorter(e[2]):
+                    yield [e[0], e[1], x]
+        for c in shorter(cond):
+            yield rebuild(new_cond=c)
 
 
 # ------------------------------------------------------------------------------------------------ real code
